@@ -297,6 +297,9 @@ func (c *Case) Render(o RenderOpts) string {
 	group := idHash(c.ID+"g")%2 == 0
 	for i, t := range c.Tokens {
 		cont := group && i > 0 && c.Tokens[i-1].Tag == t.Tag
+		if cont && t.Lit && !c.Tokens[i-1].Lit && c.Tokens[i-1].Num == 0 {
+			cont = false // "%token NAME 'c'" would declare 'c' as the alias of NAME
+		}
 		if cont {
 			sb.WriteString(" ")
 		} else {
@@ -760,6 +763,15 @@ func GenExpr(r *rand.Rand, id string) *Case {
 	}
 	if r.Intn(2) == 0 {
 		c.Rules = append(c.Rules, Rule{Lhs: "E", Rhs: []string{"'('", "E", "')'"}})
+	}
+	if r.Intn(4) == 0 {
+		// a mixfix rule whose two operator tokens sit on different levels (its precedence is that of the last one)
+		for _, t := range []string{"'?'", "':'"} {
+			pos := r.Intn(len(c.Prec) + 1)
+			pl := PrecLine{Assoc: []string{"left", "right", "nonassoc"}[r.Intn(3)], Syms: []string{t}}
+			c.Prec = append(c.Prec[:pos], append([]PrecLine{pl}, c.Prec[pos:]...)...)
+		}
+		c.Rules = append(c.Rules, Rule{Lhs: "E", Rhs: []string{"E", "'?'", "E", "':'", "E"}})
 	}
 	c.Rules = append(c.Rules, Rule{Lhs: "E", Rhs: []string{"n"}})
 	r.Shuffle(len(c.Rules), func(i, j int) { c.Rules[i], c.Rules[j] = c.Rules[j], c.Rules[i] })
